@@ -435,6 +435,8 @@ def e2e_engine(pid, spec, tier, seed, workdir, res):
         os.makedirs(out, exist_ok=True)
         env = dict(VERIF_PROFILE=prof, VERIF_N=str(n), VERIF_SEED=str(seed), VERIF_CORPUS=os.path.join(ROOT, 'corpus', pid),
                    VERIF_BACKEND=r.get('backend', ''))
+        if r.get('twins'):
+            env['VERIF_TWINS'] = '1'
         res['distribution']['backend:' + r.get('backend', 'mem')] = res['distribution'].get('backend:' + r.get('backend', 'mem'), 0) + n
         rc, log = run_harness(r.get('test', 'TestE2E'), env, out)
         if rc != 0 or not os.path.exists(os.path.join(out, 'impl.txt')):
@@ -506,6 +508,28 @@ def e2e_engine(pid, spec, tier, seed, workdir, res):
                                                   why='projected observables differ: ' + ','.join(parts)))
                     break
         res['nontrivial'] |= nontrivial
+        # metamorphic twins (C12): the same history with canonical Cache-Control spelling must behave identically
+        if r.get('twins'):
+            tparts = ['outcome', 'cache_status', 'age', 'calls', 'store']
+            for cid in order:
+                if not cid.endswith('~c'):
+                    continue
+                base = cid[:-2]
+                a_obs, b_obs = impl.get(base, []), impl.get(cid, [])
+                dist['twin:pairs'] = dist.get('twin:pairs', 0) + 1
+                rn_a, rn_b = Renamer(), Renamer()
+                bad = None
+                if len(a_obs) != len(b_obs):
+                    bad = min(len(a_obs), len(b_obs))
+                else:
+                    for (a, _), (b, _) in zip(a_obs, b_obs):
+                        if project(a, tparts, rn_a) != project(b, tparts, rn_b):
+                            bad = a['k']
+                            break
+                if bad is not None:
+                    code = 'C12:spelling-changes-behaviour'
+                    if not known_open(pid, code, known):
+                        res['violations'].append(dict(kind='monitor', code=code, case=base, exchange=bad, profile=prof, dir=out, twin=cid))
         # samples
         for cid in order[:2]:
             res['samples'].append(dict(case=cid, profile=prof,
@@ -727,10 +751,11 @@ def encrypt_engine(pid, spec, tier, seed, workdir, res):
         kinds['wire:' + obs.split(':')[0]] = kinds.get('wire:' + obs.split(':')[0], 0) + 1
         requested = t[1] == 'O' or unhex(t[2]) in ('on', 'aesgcm')
         if requested and not (obs == 'err' or obs.startswith('key:')):
-            code = 'C17:requested-but-off'
+            code = 'C17:requested-but-off' if obs == 'plain' else 'C17:unusable-key-accepted'
             if not known_open(pid, code, known):
                 res['violations'].append(dict(kind='monitor', code=code, case=' '.join(t)[:80],
-                                              payload=dict(wire=' '.join(t), meaning='encryption was requested, Open succeeded and values are stored without it',
+                                              payload=dict(wire=' '.join(t), meaning=('encryption was requested, Open succeeded and values are stored without it' if obs == 'plain' else
+                                                                                      'encryption was requested with a key that is not a base64url AES key of 16/24/32 bytes; Open succeeded and the files open under none of the well-formed keys of the configuration'),
                                                            parameters=[unhex(x) for x in t[2:-1]])))
         if obs != m:
             res['mismatches'].append(dict(case='wire-' + '-'.join(t[1:-1])[:60], exchange=0, why='encryption wiring differs from the model',
@@ -755,6 +780,10 @@ def case_payload(v):
         p = os.path.join(d, nm + '.txt')
         if os.path.exists(p):
             pl[nm] = [pretty_line(l) for l in open(p) if len(l.split()) > 1 and l.split()[1] == cid]
+    if v.get('twin'):
+        pl['twin_case'] = cases.get(v['twin'], '')
+        pl['twin_impl'] = [pretty_line(l) for l in open(os.path.join(d, 'impl.txt')) if len(l.split()) > 1 and l.split()[1] == v['twin']]
+        pl['note'] = 'twin_case is the same history with every Cache-Control field in canonical spelling; the implementation behaved differently on the two'
     return pl
 
 
